@@ -4,6 +4,7 @@ import (
 	"math/big"
 	"time"
 
+	sdkmath "cosmossdk.io/math"
 	sdk "github.com/cosmos/cosmos-sdk/types"
 
 	"mods.irisnet.org/modules/coinswap/types"
@@ -24,7 +25,13 @@ func verifC02Liquidity(op int) {
 	var pool types.Pool
 	lpt := types.GetLptDenom(e.k.getSequence(e.ctx))
 	if op != 1 {
-		pool = e.seedPool("btc", verifIntIn("S", one, w), verifIntIn("T", one, w), verifIntIn("L", one, w))
+		if op == 0 && verifChoice("drained", 2) == 1 {
+			// every provider has withdrawn: the pool record exists, no share is outstanding, and the escrow
+			// account holds nothing - or whatever somebody sent to it afterwards
+			pool = e.seedPool("btc", verifIntIn("S", zero, w), verifIntIn("T", zero, w), sdkmath.ZeroInt())
+		} else {
+			pool = e.seedPool("btc", verifIntIn("S", one, w), verifIntIn("T", one, w), verifIntIn("L", one, w))
+		}
 		lpt = pool.LptDenom
 	}
 	poolAddr := types.GetReservePoolAddr(lpt)
